@@ -11,6 +11,7 @@ import (
 	"sort"
 	"strconv"
 	"strings"
+	"time"
 	"unicode/utf8"
 )
 
@@ -208,6 +209,12 @@ func init() {
 		// time
 		"time.Now":   timeNow,
 		"time.Since": func(fr *frame, a []value) value { return int64(0) },
+		"(time.Duration).String": func(fr *frame, a []value) value {
+			if isSym(a[0]) {
+				return placeholder(a[0])
+			}
+			return time.Duration(asInt64(a[0])).String()
+		},
 		"time.Sleep": func(fr *frame, a []value) value { fr.i.yield("sleep"); return nil },
 	} {
 		externals[k] = v
@@ -555,7 +562,8 @@ func (i *interpreter) errValue(msg string) value {
 func strconvParseFloat(fr *frame, a []value) value {
 	s, ok := a[0].(string)
 	if !ok {
-		panic(engineAbort{kind: abortUnsupported, msg: "strconv.ParseFloat on symbolic string"})
+		// symbolic digits: interpret strconv's own code
+		return callSSA(fr.i, fr, token.NoPos, fr.fn, a, nil, true)
 	}
 	f, err := strconv.ParseFloat(s, int(asInt64(a[1])))
 	if err != nil {
